@@ -1,0 +1,23 @@
+// SPDX-License-Identifier: MIT OR Apache-2.0
+
+//! Verification hook, compiled only with `--cfg p2panda_p2panda_verif` (properties C16, C17).
+//!
+//! Builds the publish / subscribe halves of an ephemeral stream over a given [`GossipHandle`]
+//! (see `GossipHandle::verif_over_channels` in `p2panda-net`) with the crate's own constructor,
+//! without spawning a node.
+use p2panda_core::{SigningKey, Topic};
+use p2panda_net::gossip::GossipHandle;
+use p2panda_store::SqliteStore;
+
+use crate::forge::OperationForge;
+use crate::streams::{EphemeralStreamPublisher, EphemeralStreamSubscription, ephemeral_stream};
+
+pub fn ephemeral_stream_over<M>(
+    topic: Topic,
+    signing_key: SigningKey,
+    store: SqliteStore,
+    handle: GossipHandle,
+) -> (EphemeralStreamPublisher<M>, EphemeralStreamSubscription<M>) {
+    let forge = OperationForge::from_signing_key(signing_key, store);
+    ephemeral_stream(topic, forge, handle)
+}
